@@ -458,6 +458,15 @@ func addTextVariants(r *Rng, w *Workload, nexpr int) int {
 		return nexpr
 	}
 	base := w.Exprs[r.Intn(nexpr)].Text
+	if r.P(1, 3) {
+		// the same text with its runs of white space collapsed (significant
+		// inside string literals and quoted identifiers)
+		t := strings.Join(strings.Fields(base), " ")
+		if t != base {
+			w.Exprs = append(w.Exprs, ExprSpec{Text: t, Tree: &Expr{K: KRaw, S: t}})
+			return len(w.Exprs)
+		}
+	}
 	pads := []string{" ", "\t", "\n", "\r\n ", "\f", "\v", "\u0085", "\u00a0", "\u2003", "\u3000"}
 	n := 1 + r.Intn(2)
 	for i := 0; i < n; i++ {
